@@ -316,14 +316,14 @@ func (gp *GenProgram) setupSpec() {
 		// the register clause of the memo invariant is dropped with it: the memoised replay of a -switch
 		// parser is only required to reproduce verdict, position and tokens
 		if fc := u.CS.Funcs["Init.memoize"]; fc != nil {
+			var keep []*Clause
 			for _, rq := range fc.Requires {
 				if strings.Contains(rq.Text, "MX(") {
-					txt := strings.Replace(rq.Text, "&& MX(RULEOF(rule), begin, maxToken) == maxToken", "", 1)
-					if e, err := parseExpr(txt); err == nil {
-						rq.Text, rq.Expr = txt, e
-					}
+					continue
 				}
+				keep = append(keep, rq)
 			}
+			fc.Requires = keep
 		}
 	}
 	if ex := u.CS.Funcs[gp.structName()+".Execute"]; ex != nil && gp.Ast {
